@@ -502,6 +502,9 @@ impl Prop for C05 {
                 Probe::Unavailable => out.feat("exec_probe_unavailable"),
             }
         }
+        if std::env::var("TSGMON_DUMP_CASE").is_ok() {
+            eprintln!("CASE {} label={} dsl={:?} source={:?}", idx, label, text, source);
+        }
         // (a) loading
         let loaded = exec::load(&text);
         out.eval();
@@ -654,9 +657,15 @@ fn probe_load(text: &str) -> Probe {
     probe_child(&["load-probe"], text)
 }
 
-/// load and execute (strict) in a child process
+/// load and execute in a child process, strict and then lazy (lazy evaluation runs ONE query
+/// merged from all stanzas over the whole tree before anything else, so it can meet a runaway
+/// pattern that strict evaluation never reaches because an earlier stanza fails)
 fn probe_exec(text: &str, source: &str) -> Probe {
-    probe_child(&["exec-probe", "-", "strict"], &json!({"dsl": text, "source": source}).to_string())
+    let input = json!({"dsl": text, "source": source}).to_string();
+    match probe_child(&["exec-probe", "-", "strict"], &input) {
+        Probe::Finished => probe_child(&["exec-probe", "-", "lazy"], &input),
+        other => other,
+    }
 }
 
 fn probe_child(args: &[&str], text: &str) -> Probe {
